@@ -66,6 +66,14 @@ _add("list spread2", "[1, ...x, ...y]", 2)
 _add("for", "for e in x do e end", 1)
 _add("for2", "for [a, b] in x do a end", 1)
 _add("for3", "for [a, b, c] in x do a end", 1)
+_add("for dup", "for [a, a] in x do a end", 1)
+_add("def destr dup", "do def [a, a] = x; a end", 1)
+_add("assign destr dup", "do def a = 0; [a, a] = x; a end", 1)
+_add("self append", "do def v = x; append(v, v); v end", 1)
+_add("self add", "do def v = x; v + v end", 1)
+_add("self eq", "do def v = x; v == v and v <= v end", 1)
+_add("self in", "do def v = x; v in v end", 1)
+_add("self put", "do def v = x; v[v] = v; v end", 1)
 _add("for keys", "for k in keys x do k end", 1)
 _add("for values", "for k in values x do k end", 1)
 _add("for entries", "for k in entries x do k end", 1)
@@ -147,7 +155,9 @@ def run_form(name, argnames, wrap=False):
     core.arm(10.0)
     try:
         o = core.outcome_raw(lambda: node.evaluate(env))
-        if o[0] == "value":
+        if o[0] == "value" and not (
+                isinstance(o[1], core.ckl.values.Value)
+                and core.is_cyclic(o[1])):
             try:
                 repr(o[1])
             except core.CklRuntimeError:
@@ -195,14 +205,22 @@ def explore_calls(chunk):
                     continue
             elif len(t) < 2 or t[0] != first:
                 continue
-            o, args = s.call(fn, t)
-            agg.count("steps")
-            agg.cls((fname, o[0]))
-            bad = judge(o)
+            variants = [False]
+            if len(t) >= 2 and len(set(t)) < len(t):
+                variants.append(True)   # the same object passed twice
+            for alias in variants:
+                o, args = s.call(fn, t, alias=alias)
+                agg.count("steps")
+                agg.cls((fname, o[0]))
+                bad = judge(o)
+                if bad:
+                    break
             if bad:
                 sig = {"callee": fname, **bad}
+                if alias:
+                    sig["aliased"] = "yes"
                 agg.violation(sig, {"kind": "call", "callee": fname,
-                                    "args": list(t)},
+                                    "args": list(t), "alias": alias},
                               "value or catchable runtime error",
                               core.show_raw(o), size=len(t) * 100 + sum(
                                   len(x) for x in t))
@@ -309,7 +327,8 @@ def replay(case, verbose=False):
             if verbose:
                 print("wrapped call intercepted:", ok)
             return not ok
-        o, _ = s.call(fn, tuple(case["args"]))
+        o, _ = s.call(fn, tuple(case["args"]),
+                      alias=bool(case.get("alias")))
     else:
         o = run_form(case["form"], tuple(case["args"]),
                      wrap=bool(case.get("wrap")))
